@@ -608,7 +608,7 @@ SP_FORMS = ["float32", "complex64", "int64", "int32", "uint8", "uint16", "bool",
 BLUR_FORMS = ["cond_float32", "cond_int64", "cond_int32", "cond_uint8", "cond_uint16", "cond_bool", "cond_fortran", "ppp_list", "ppp_tuple", "ppp_bool",
               "ppp_float", "ppp3_0", "ppp3_1", "ngrids_list", "ngrids_tuple", "ngrids_int32", "pos_float32", "pos_fortran", "sigma_int",
               "scalars_numpy", "cut_zero_int", "cut_zero_float", "unwrapped", "dilate_m33", "dilate_p27"]
-WIN_FORMS = ["float32", "complex64", "int64", "int32", "uint8", "uint16", "bool", "period_int", "dt_numpy", "x_fortran"]
+WIN_FORMS = ["float32", "complex64", "int64", "int32", "uint8", "uint16", "bool", "period_int", "dt_numpy", "x_fortran", "outlier_f1", "outlier_f0"]
 # (L9) absolute scale of the time axis: dt of 2e-18 / 2e6 time units (interval 2e-16 / 2e8), timesteps offset by 2e9 / 1e12
 WIN_SCALES = {"scale_tiny": ("2e-18", 1000), "scale_huge": ("2e6", 1000), "t0_2e9": ("0.002", 2 * 10**9), "t0_1e12": ("0.002", 10**12)}
 
@@ -792,6 +792,11 @@ def forms_window(case):
     x = Y.int_values((T, N), dt, salt=4)
     if form == "x_fortran":
         x = np.asfortranarray(x)
+    if form.startswith("outlier"):
+        # numerical regime: one particle carries a value 2^47 (1.4e14) in ONE early frame, order-one values elsewhere; every window that does
+        # not contain that frame is the plain mean of its own frames (a running-sum implementation loses their low bits)
+        x = x + (np.arange(T * N).reshape(T, N) % 7) * 0.1 + 0.013
+        x[1 if form == "outlier_f1" else 0, 0] = 2.0 ** 47
     sig = {"kind": "window", "form": form, "even_window": w % 2 == 0}
     period = float(case["period"])
     step = float(dts)
